@@ -73,6 +73,19 @@ def locate(doc, nc):
     return p + [("I", ref) if isinstance(nc.parent, list) else ("K", ref)]
 
 
+def inside_rhs(doc, rhs, loc):
+    """the location passes THROUGH the right-hand document object (and goes on)"""
+    cur = doc
+    for t, r in loc:
+        if cur is rhs:
+            return True
+        try:
+            cur = cur[r]
+        except Exception:  # noqa
+            return False
+    return False
+
+
 def loc_sexp(loc):
     return "(%s)" % " ".join("(I i%d)" % r if t == "I" else "(K %s)" % docenc.pyval_sexp(r) for t, r in loc)
 
@@ -107,6 +120,10 @@ def plan(case):
     for loc in locs:
         cur = lhs
         for t, r in loc:
+            if cur is rhs:
+                # path creation stored the right-hand document and the path went on INTO it (F-C11-5): the
+                # model's targets are places of the left document
+                return "target-inside-rhs", None
             try:
                 cur = cur[r]
             except Exception:  # noqa
@@ -236,6 +253,9 @@ def judge(case, obs):
         return "path evaluation crashed with %s" % type(e).__name__
     if not ncs:
         return None if line.startswith("(raise") else "an unmatched path was not reported: %s" % line[:60]
+    if any(inside_rhs(lhs, rhs, locate(lhs, nc)) for nc in ncs):
+        return None if line.startswith("(raise") else \
+            "a path that cannot be created was not reported: the right-hand document was merged into its own children"
     created = c05.plain(lhs)
     pol = c05.Policy((lhs_t, rhs_t, opts, None, None, None))
     r = c05.plain(rhs)
@@ -272,7 +292,35 @@ def aoh_default(case, obs):
         c05._aoh_default((None, None, case[3], None, None, None)) in ("left", "right")
 
 
-FINDING_PREDS = {"aoh_default_governs_non_aoh": aoh_default}
+def uncreatable_segment_in_missing_path(case, obs):
+    """F-C11-5: the --mergeat path does not exist in the left document (or the
+    left document is empty) and holds a segment that path creation cannot build
+    (anything but a plain key or index: wildcard, search, anchor, slice ...).
+    Path creation (Nodes.build_next_node; Merger.merge_with for an empty
+    document, Processor._get_optional_nodes below an existing prefix) then
+    stores the right-hand document ITSELF at the first missing step and
+    evaluates the remaining segments inside it, so the right-hand document is
+    merged into its own children (a cyclic document) instead of a merge error."""
+    lhs_t, rhs_t, path, opts = case
+    E, C = _ENV, c05._ENV
+    from yamlpath.enums import PathSegmentTypes
+    p = E["YAMLPath"](path)
+    if p.is_root or c05.load(rhs_t) is None:
+        return False
+    if all(t in (PathSegmentTypes.KEY, PathSegmentTypes.INDEX) and not (isinstance(a, str) and ":" in a)
+           for t, a in p.escaped):
+        return False
+    lhs = c05.load(lhs_t)
+    if lhs is None:
+        return True
+    try:
+        return not list(E["Processor"](C["log"], lhs).get_nodes(p, mustexist=True))
+    except Exception:  # noqa
+        return True
+
+
+FINDING_PREDS = {"aoh_default_governs_non_aoh": aoh_default,
+                 "uncreatable_segment_in_missing_path": uncreatable_segment_in_missing_path}
 
 LHS = ["{a: {b: 1}, k: {b: 2}}", "{a: [1, 2], k: 5}", "{a: {b: {c: 1}}, l: [{id: 1}]}", "{a: !!set {x}, k: 1}",
        "[{a: 1}, {a: 2}]", "{a: 1}", "[]", "{}", "~", "{a: {b: [1]}, k: [2]}", "{a: [~, 1], k: 5}", "[[1, 2], [2], 5]"]
@@ -346,6 +394,8 @@ def corpus_chunks():
         ("{a: !!set {x}, k: 1}", "7", "/k", {}),                    # former F-C11-3 (Processor fixed: ecc1034)
         ("{a: [~, 1]}", "7", "/a[.=zz]", {}),                       # former F-C11-4 (Processor fixed: 21d5108)
         ("{a: [~, 1]}", "7", "/a[.=1]", {}),
+        ("~", "{id: {b: '1'}}", "/*", {}),                          # F-C11-5
+        ("{a: 1}", "{id: {b: '1'}}", "/x/*", {}),                   # F-C11-5
         ("{a: {b: 1}}", "{c: 2}", "/x/y", {}),
         ("{a: {b: 1}, k: {b: 2}}", "{c: 2}", "/*", {}),
         ("{a: 1}", "{c: 2}", "/b[.=x]", {}),
